@@ -116,7 +116,7 @@ class RngDomain(TagDomain):
           self.cur(), 'time:' + attr))
 
 
-def rule_rng(repo, rep):
+def rule_rng(repo, rep, only_constraints=False):
   R = 'R-WHO:rng-discipline'
   rep.rule(R, 'no global numpy.random / random call; every draw is a method '
            'call on check_random_state(<random_state param or '
@@ -125,7 +125,7 @@ def rule_rng(repo, rep):
            'time.time() never reaches a self attribute')
   draws = comps = 0
   entries = []
-  for c in repo.estimators():
+  for c in ([] if only_constraints else repo.estimators()):
     f = repo.resolve_method(c, 'fit')
     entries.append((c, f, {}))
   cons = repo.get_class('Constraints')
@@ -171,8 +171,10 @@ def rule_rng(repo, rep):
           rep.refuted(R, 'global:%s:%s' % (m.short, d),
                       '%s:%d' % (m.relpath, n.lineno),
                       'call of the global generator %s' % d)
-  rep.floor('random draw sites on checked generators (visits)', draws, 5)
-  rep.floor('seeded stochastic library components (visits)', comps, 3)
+  rep.floor('random draw sites on checked generators (visits)', draws,
+            3 if only_constraints else 5)
+  if not only_constraints:
+    rep.floor('seeded stochastic library components (visits)', comps, 3)
 
 
 # ---------------------------------------------------------------- FRESH
